@@ -91,6 +91,7 @@ def eff (spec : Spec) (g : Nat) : Eff := spec.getD g noEff
 
 structure Sem (V I : Type) where
   F : Nat → List V → List (Option V) → Option I → V            -- result of getter g
+  raises : Nat → List V → List (Option V) → Option I → Bool    -- getter g raises instead of returning
   W : Nat → Nat → List V → List (Option V) → Option I → V      -- value getter g writes into slot p
   C : Nat → Nat → V → V                                         -- getter g rewrites cached k in place
   CI : Nat → I → I                                              -- getter g rewrites the input in place
@@ -111,7 +112,8 @@ def construct (sem : Sem V I) (initDerived : List Nat) (cp : Nat → Option V) (
     input := x
     count := fun _ => 0 }
 
-/-- read the attributes a getter uses, left to right; `none` = the recursion limit was hit -/
+/-- read the attributes a getter uses, left to right; `none` = that read raised (a getter raised or the
+    recursion limit was hit): the exception propagates -/
 def readDeps (rd : Nat → St V I → St V I × Option V) : List Nat → St V I → St V I × Option (List V)
   | [], s => (s, some [])
   | d :: ds, s =>
@@ -138,7 +140,7 @@ def fire (sem : Sem V I) (e : Eff) (g : Nat) (dvs : List V) (pvs : List (Option 
       else s.cache k
     count := fun k => if k = g then s.count k + 1 else s.count k }
 
-/-- `OneTimeProperty.__get__` with a recursion budget -/
+/-- `OneTimeProperty.__get__` with a recursion budget; `none` = an exception reached the caller -/
 def readF (spec : Spec) (sem : Sem V I) : Nat → Nat → St V I → St V I × Option V
   | 0, _, s => (s, none)
   | fuel + 1, g, s =>
@@ -149,8 +151,12 @@ def readF (spec : Spec) (sem : Sem V I) : Nat → Nat → St V I → St V I × O
       | (s1, none) => (s1, none)
       | (s1, some dvs) =>
         let pvs := (eff spec g).reads.map s1.params
-        let v := sem.F g dvs pvs (inputArg (eff spec g) s1.input)
-        (fire sem (eff spec g) g dvs pvs v s1, some v)
+        -- a getter that raises stores nothing and has no effect of its own (what its dependencies
+        -- did before stays): `OneTimeProperty.__get__` reaches `setattr` only after the getter returned
+        if sem.raises g dvs pvs (inputArg (eff spec g) s1.input) then (s1, none)
+        else
+          let v := sem.F g dvs pvs (inputArg (eff spec g) s1.input)
+          (fire sem (eff spec g) g dvs pvs v s1, some v)
 
 /-- a read as the user performs it.  The translator emits the getters in dependency order, so a
     budget of `g + 1` nested calls suffices; with a cyclic table the read fails (`none`), which is
